@@ -63,6 +63,12 @@ def _stat_objects(ubm, s, o):
     z.n[-1], z.sum_px[-1], z.sum_pxx[-1] = 0.0, 0.0, 0.0
     out.append(z)
     out.append(GMMStats(C, D))
+    bal = GMMStats(C, D)  # a recording with frames whose first-order statistics sit exactly on the UBM means
+    bal.t = 2 * C
+    bal.n = np.full(C, 2.0)
+    bal.sum_px = 2.0 * np.asarray(ubm.means, float)
+    bal.sum_pxx = 2.0 * (np.asarray(ubm.means, float) ** 2 + 0.5 * np.asarray(ubm.variances, float))
+    out.append(bal)
     return out
 
 
@@ -113,6 +119,10 @@ def _project_case(case, c, s, o):
     return nonzero, "p|%d|%d|%d" % (case["ubm"], case["tp"], t)
 
 
+def _lazy(part):
+    return (st for st in part)
+
+
 def _em_step(um, T, sig, stats, upd, floor):
     """One EM iteration of the total-variability model from the definition. Returns (T', sigma', floor_active)."""
     C, D = um.shape
@@ -157,7 +167,7 @@ def _train_case(case, c, s, o):
     um = np.asarray(ubm.means, float)
     allst = _stat_objects(ubm, s, o)
     ts = case["tset"]
-    stats = [allst[:3], allst[:5], allst[1:6], [allst[0], allst[0], allst[3], allst[2]]][ts]
+    stats = [allst[:3], allst[:5] + [allst[6]], allst[1:7], [allst[0], allst[0], allst[3], allst[2], allst[6]]][ts]
     if case["bag"] and (case["rs"] + ts) % 2 == 0:
         stats = (stats * 5)[:13]  # 13 partitions: odd counts at several levels of any tree reduction
     if case.get("tiny"):
@@ -174,6 +184,8 @@ def _train_case(case, c, s, o):
         m = IVectorMachine(ubm, dim_t=t, max_iterations=k, update_sigma=case["upd"], variance_floor=floor)
         # bags: 2 partitions, or (every other case) one partition per statistics object of a 13-object set
         X = db.from_sequence(copy.deepcopy(stats), npartitions=len(stats) if len(stats) > 10 else 2) if case["bag"] else copy.deepcopy(stats)
+        if case["bag"] and case["rs"] == 1:
+            X = X.map_partitions(_lazy)  # partitions that are one-shot iterators (statistics produced on the fly)
         m.fit(X)
         c.transitions += 1
         return np.asarray(m.T, float), np.asarray(m.sigma, float)
